@@ -34,12 +34,9 @@ def circuits():
         ct.write_gen()
 
 def cache():
-    try:
-        import c10_translate as TC
-    except ImportError:
-        return
-    if hasattr(TC, "regenerate"):
-        TC.regenerate()
+    import c10_translate as TC
+    flags, _facts = TC.read_cache_shape(SRC)
+    TC.write_gen(flags, os.path.join(COQ, "Gen", "GenCacheKey.v"))
 
 os.makedirs(os.path.join(COQ, "Gen"), exist_ok=True)
 for n, f in (("GenHellinger", hell), ("GenIntegrator/GenPulse", integ), ("GenGates", gates), ("GenCircuit", circuits), ("GenCacheKey", cache)):
